@@ -45,6 +45,24 @@ def check_text(text):
         import traceback
 
         return [(dict(kind="exception", **emb.exc_signature()), traceback.format_exc())], info
+    # tokenize is a function of its arguments: what one caller does to the list it got (consumers do
+    # edit token lists in place) must not show in what the next caller gets for the same text
+    try:
+        shape1 = None if toks is None else [(t.symbol, t.text, str(t.source_location)) for t in toks]
+        if toks:
+            del toks[len(toks) // 2]
+            if toks:
+                toks[0] = None
+        toks_b, errs_b = tokenizer.tokenize(text, "f.emb")
+        shape2 = None if toks_b is None else [(getattr(t, "symbol", None), getattr(t, "text", None), str(getattr(t, "source_location", None))) for t in toks_b]
+        if shape1 != shape2 or bool(errs) != bool(errs_b):
+            out.append(({"kind": "result-shared-between-calls"}, "tokenize(text) after the previous result was edited in place returns %d tokens instead of %d" % (len(shape2 or []), len(shape1 or []))))
+            return out, info
+        toks = toks_b
+    except Exception:
+        import traceback
+
+        return [(dict(kind="exception-on-second-call", **emb.exc_signature()), traceback.format_exc())], info
     status = ref().tokenize(text)
     lines = reftok.split_lines(text)
     info["lines"] = len(lines)
